@@ -236,6 +236,51 @@ pub fn mixed_cycle_world(world: &World) -> bool {
 
 /// textual test for worlds outside the fragment parser: a trait without parameters has a blanket impl
 /// (`impl<T> Tr for T`) and at least one more impl — the blanket header unifies with every other header
+/// textual: the goal has a hypothesis on a trait that has a blanket impl (`impl<T..> Tr<..> for T`, trait arguments
+/// bare parameters or none): hypothesis and impl are two clauses for the same goals
+pub fn hyp_vs_blanket_overlap(items: &[String], goal: &str) -> bool {
+    if !goal.contains("if (") {
+        return false;
+    }
+    for it in items {
+        let it = it.trim();
+        let r = match it.strip_prefix("impl<") {
+            Some(r) => r,
+            None => continue,
+        };
+        let j = match r.find('>') {
+            Some(j) => j,
+            None => continue,
+        };
+        let params: Vec<String> = r[..j].split(',').map(|s| s.trim().to_string()).collect();
+        let head = r[j + 1..].split(" where ").next().unwrap_or("").split('{').next().unwrap_or("").trim();
+        if let Some((tr, ty)) = head.split_once(" for ") {
+            if !params.iter().any(|p| p == ty.trim()) {
+                continue;
+            }
+            let (name, args) = match tr.trim().split_once('<') {
+                Some((n, a)) => (n.trim(), a.trim_end_matches('>')),
+                None => (tr.trim(), ""),
+            };
+            if !args.is_empty() && !args.split(',').all(|a| params.iter().any(|p| p == a.trim())) {
+                continue;
+            }
+            // hypothesis segments: text between `if (` and the matching `)`
+            let mut rest = goal;
+            while let Some(i) = rest.find("if (") {
+                let seg = &rest[i + 4..];
+                let end = seg.find(") {").unwrap_or(seg.len());
+                let h = &seg[..end];
+                if h.contains(&format!(": {}<", name)) || h.contains(&format!(": {};", name)) || h.ends_with(&format!(": {}", name)) || h.contains(&format!(": {})", name)) {
+                    return true;
+                }
+                rest = &seg[end..];
+            }
+        }
+    }
+    false
+}
+
 pub fn blanket_overlap(items: &[String]) -> bool {
     let mut by_trait: BTreeMap<String, (usize, bool)> = BTreeMap::new();
     for it in items {
@@ -271,7 +316,7 @@ pub fn blanket_overlap(items: &[String]) -> bool {
 pub fn overlap_tag(world: &World, goal: usize) -> bool {
     match crate::wgen::parse_world(world) {
         Ok((prog, goals)) => crate::wgen::has_overlapping_impls(&prog) || matches!(goals.get(goal), Some(Ok(ast)) if crate::wgen::hyp_overlaps_impl(&prog, ast)),
-        Err(_) => blanket_overlap(&world.items),
+        Err(_) => blanket_overlap(&world.items) || world.goals.get(goal).map(|g| hyp_vs_blanket_overlap(&world.items, g)).unwrap_or(false),
     }
 }
 
